@@ -17,7 +17,7 @@ func (ft *FuncTr) instr(b *ssa.BasicBlock, st *State, at *Term, in ssa.Instructi
 		return false, nil
 	case *ssa.Alloc:
 		ty := x.Type().(*types.Pointer).Elem()
-		if x.Heap && ft.snapshotCell(x) {
+		if x.Heap && (ft.snapshotCell(x) || ft.valueArrayCell(x)) {
 			st.locals[x] = ft.w.zero(ft.d, ty)
 			ft.vals[x] = Val{Ref: &LocalRef{alloc: x}}
 			return false, nil
@@ -716,6 +716,13 @@ func (ft *FuncTr) sliceInstr(st *State, at *Term, x *ssa.Slice) error {
 			return unsupported("slice of " + x.X.Type().String())
 		}
 		pv := ft.val(x.X)
+		if pv.Ref != nil && len(pv.Ref.path) == 0 && x.Low == nil && x.High == nil && x.Max == nil {
+			// x[:] of an immutable temporary array: a function of the content
+			r := ft.h.arrSlice(ft.localGet(st, pv.Ref.alloc))
+			ft.assume(at, And(Eq(SlcLen(r), IntLit(arr.Len())), Eq(SlcCap(r), IntLit(arr.Len())), Eq(SlcOff(r), IntLit(0)), Not(IsNil(SlcArr(r))), Lt(PObjID(SlcArr(r)), ft.h.nextID(st))))
+			ft.define(x, r)
+			return nil
+		}
 		if pv.T == nil {
 			return unsupported("slice of local array")
 		}
@@ -908,4 +915,45 @@ func (ft *FuncTr) snapshotCell(a *ssa.Alloc) bool {
 		}
 	}
 	return true
+}
+
+// valueArrayCell: a local array that is assigned once and only ever sliced whole as an argument of
+// pure callees is an immutable temporary; x[:] is then modelled as a function of the array's content.
+func (ft *FuncTr) valueArrayCell(a *ssa.Alloc) bool {
+	if _, ok := a.Type().(*types.Pointer).Elem().Underlying().(*types.Array); !ok {
+		return false
+	}
+	if a.Referrers() == nil {
+		return false
+	}
+	stores := 0
+	for _, r := range *a.Referrers() {
+		switch x := r.(type) {
+		case *ssa.Store:
+			if x.Addr != ssa.Value(a) {
+				return false
+			}
+			stores++
+		case *ssa.Slice:
+			if x.X != ssa.Value(a) || x.Low != nil || x.High != nil || x.Max != nil || x.Referrers() == nil {
+				return false
+			}
+			for _, u := range *x.Referrers() {
+				switch y := u.(type) {
+				case *ssa.DebugRef:
+				case *ssa.Call:
+					_, con, _ := ft.w.resolveCallee(y.Common())
+					if con == nil || !con.Pure {
+						return false
+					}
+				default:
+					return false
+				}
+			}
+		case *ssa.DebugRef:
+		default:
+			return false
+		}
+	}
+	return stores == 1
 }
